@@ -2,6 +2,7 @@
 ibldsp.waveform_extraction.extract_wfs_cbin / WaveformsLoader and
 ibldsp.utils.make_channel_index on synthetic recordings whose value encodes
 (sample, channel)."""
+import hashlib
 import json
 import shutil
 import warnings
@@ -112,28 +113,89 @@ def impl_extract(case, binf, size, n_jobs, out):
             obs["traces"] = np.array(np.load(out / "waveforms.traces.npy"))
             obs["channels"] = np.load(out / "waveforms.channels.npz")["channels"].astype(np.int64)
             obs["templates"] = np.load(out / "waveforms.templates.npy")
-            wl = we.WaveformsLoader(out, trough_offset=case["to"])
-            labels, indices = case["labels"], case["indices"]
-            lrep, irep = case.get("lab_repr", "array"), case.get("ind_repr", "array")
-            if labels is not None:
-                labels = {"array": np.array(labels), "list": list(labels), "tuple": tuple(labels),
-                          "int32": np.array(labels, dtype=np.int32)}[lrep]
-            if indices is not None:
-                indices = {"array": np.array(indices), "list": list(indices),
-                           "scalar": indices[0] if len(indices) == 1 else list(indices),
-                           "npint": np.int64(indices[0]) if len(indices) == 1 else np.array(indices, dtype=np.uint8)}[irep]
-            wfs, info, chans = wl.load_waveforms(labels=labels, indices=indices)
-            obs["ld_rows"] = [int(x) for x in info.index]
-            obs["ld_wfs"] = np.array(wfs)
-            obs["ld_info"] = info[["sample", "cluster", "peak_channel", "waveform_index",
-                                   "index_within_clusters"]].to_numpy().astype(np.int64)
-            obs["ld_chans"] = np.array(chans).astype(np.int64)
-            wfs_all = wl.load_waveforms(return_info=False)
-            obs["ld_all"] = np.array(wfs_all)
-            del wl
+            obs.update(loader_sequence(we, case, out, obs))
     except Exception as e:  # noqa
         obs["error"] = "reading back: %s: %s" % (type(e).__name__, str(e)[:200])
     return obs
+
+
+FILES = ("waveforms.traces.npy", "waveforms.table.pqt", "waveforms.channels.npz", "waveforms.templates.npy")
+
+
+def file_hashes(out):
+    return [hashlib.sha256((Path(out) / f).read_bytes()).hexdigest() for f in FILES]
+
+
+def loader_args(case, labels, indices):
+    lrep, irep = case.get("lab_repr", "array"), case.get("ind_repr", "array")
+    if labels is not None:
+        labels = {"array": np.array(labels), "list": list(labels), "tuple": tuple(labels),
+                  "int32": np.array(labels, dtype=np.int32)}[lrep]
+    if indices is not None:
+        indices = {"array": np.array(indices), "list": list(indices),
+                   "scalar": indices[0] if len(indices) == 1 else list(indices),
+                   "npint": np.int64(indices[0]) if len(indices) == 1 else np.array(indices, dtype=np.uint8)}[irep]
+    return labels, indices
+
+
+def scribble(wfs, info, chans):
+    """In-place edits a caller may make on what load_waveforms returned (mean removal, blanking,
+    scaling ...); read-only results are left alone."""
+    for a, v in ((wfs, -12345.0), (chans, -9)):
+        try:
+            a[...] = v
+        except (ValueError, TypeError):
+            pass
+    if info is not None:
+        try:
+            info.iloc[:, :] = -5
+        except Exception:  # noqa
+            pass
+
+
+def loader_sequence(we, case, out, obs):
+    """A sequence of load_waveforms calls (same loader and fresh loaders; default, by labels, by
+    indices, both), every returned array edited in place between calls.  Each call is compared with a
+    snapshot of the saved rows; the four files must be byte-identical afterwards."""
+    tb, tr, ch = obs["table"], obs["traces"], obs["channels"]
+    snap_tr, snap_ch, snap_tb = tr.copy(), ch.copy(), tb.copy()
+    h0 = file_hashes(out)
+    L, I = case["labels"], case["indices"]
+    queries = [("q", L, I), ("all", None, None), ("lab", L, None), ("ind", None, I),
+               ("all", None, None), ("q", L, I)]
+    res = {"seq_bad": [], "seq_calls": 0}
+    wl = we.WaveformsLoader(out, trough_offset=case["to"])
+    for step, (name, lab, ind) in enumerate(queries):
+        if step == 4:                       # a fresh loader for the last two calls
+            del wl
+            wl = we.WaveformsLoader(out, trough_offset=case["to"])
+        la, ia = loader_args(case, lab, ind)
+        wfs, info, chans = wl.load_waveforms(labels=la, indices=ia)
+        rows = [int(x) for x in info.index]
+        res["seq_calls"] += 1
+        if step < 4:
+            res["rows_" + name] = rows
+        elif rows != res["rows_" + name]:
+            res["seq_bad"].append("call %d (%s, fresh loader) selects other rows than the first time" % (step, name))
+        ok = (np.asarray(wfs).shape == (len(rows),) + snap_tr.shape[1:] and nan_eq(wfs, snap_tr[rows]) and
+              np.array_equal(np.asarray(chans), snap_ch[rows]) and
+              np.array_equal(info[["sample", "cluster", "peak_channel", "waveform_index",
+                                   "index_within_clusters"]].to_numpy().astype(np.int64), snap_tb[rows][:, 1:]))
+        if not ok:
+            res["seq_bad"].append("call %d (%s): load_waveforms does not return the saved rows "
+                                  "(after in-place edits of earlier results)" % (step, name))
+        scribble(wfs, info, chans)
+        wfs2 = wl.load_waveforms(labels=la, indices=ia, return_info=False)
+        if not nan_eq(wfs2, snap_tr[rows]):
+            res["seq_bad"].append("call %d (%s): repeated load differs from the saved rows" % (step, name))
+        scribble(wfs2, None, wfs2[:0])
+    del wl
+    if file_hashes(out) != h0:
+        res["seq_bad"].append("the output files changed on disk during a sequence of load_waveforms calls")
+    if not nan_eq(np.load(Path(out) / "waveforms.traces.npy"), snap_tr):
+        res["seq_bad"].append("waveforms.traces.npy no longer holds the extracted waveforms")
+    res["ld_rows"] = res["rows_q"]
+    return res
 
 
 # --------------------------------------------------------------------------
@@ -236,19 +298,15 @@ def oracle(case, obs, data):
                     break
         if not np.all(np.isnan(tp[len(present):])):
             bad.append(("templates", "template rows beyond the clusters present are not NaN"))
-    # loader
-    rows = obs["ld_rows"]
+    # loader: row selection of the four queries, and the call sequence
     labs = present if case["labels"] is None else case["labels"]
-    exp_rows = [r for r in range(n) if keys[r][0] in labs and
-                (case["indices"] is None or iw_exp[r] in case["indices"])]
-    if rows != exp_rows:
-        bad.append(("loader", "load_waveforms selected rows %s, expected %s" % (rows[:8], exp_rows[:8])))
-    elif rows:
-        if not nan_eq(obs["ld_wfs"], tr[rows]) or not np.array_equal(obs["ld_chans"], ch[rows]) or \
-                not np.array_equal(obs["ld_info"], tb[rows][:, 1:]):
-            bad.append(("loader", "load_waveforms does not return the saved rows"))
-    if not nan_eq(obs["ld_all"], tr):
-        bad.append(("loader", "load_waveforms() does not return all saved waveforms"))
+    for name, lsel, isel in (("q", labs, case["indices"]), ("all", present, None), ("lab", labs, None),
+                             ("ind", present, case["indices"])):
+        exp_rows = [r for r in range(n) if keys[r][0] in lsel and (isel is None or iw_exp[r] in isel)]
+        if obs["rows_" + name] != exp_rows:
+            bad.append(("loader", "load_waveforms(%s) selected rows %s, expected %s" % (name, obs["rows_" + name][:8], exp_rows[:8])))
+    for w in obs["seq_bad"]:
+        bad.append(("loader_sequence", w))
     return bad
 
 
@@ -290,7 +348,8 @@ def enc_obs(obs):
     out += [ch.shape[0], ch.shape[1]] + [int(x) for x in ch.ravel()]
     ngroups = len(set(int(c) for c in tb[:, 2]))
     out += [tp.shape[0], ngroups] + enc_cells(tp[:ngroups], 2)
-    out += [len(obs["ld_rows"])] + obs["ld_rows"]
+    for name in ("q", "all", "lab", "ind"):
+        out += [len(obs["rows_" + name])] + obs["rows_" + name]
     return out
 
 
@@ -443,7 +502,8 @@ def case_desc(case, size, n_jobs):
 
 
 def same_files(a, b):
-    return all(nan_eq(a[k], b[k]) for k in ("table", "traces", "channels", "templates")) and a["ld_rows"] == b["ld_rows"]
+    return all(nan_eq(a[k], b[k]) for k in ("table", "traces", "channels", "templates")) and \
+        all(a["rows_" + q] == b["rows_" + q] for q in ("q", "all", "lab", "ind"))
 
 
 def run_case(ctx, case, work, jobs_for, inputs, outputs, descs, stats):
@@ -477,6 +537,7 @@ def run_case(ctx, case, work, jobs_for, inputs, outputs, descs, stats):
         elif case.get("out_of_domain"):
             stats["out_of_domain_no_exception"] = stats.get("out_of_domain_no_exception", 0) + 1
         else:
+            stats["loader_calls"] = stats.get("loader_calls", 0) + 2 * obs["seq_calls"]
             for kind, what in oracle(case, obs, data):
                 ctx.fail(what, desc, {"kind": kind})
             if first is None:
@@ -555,7 +616,7 @@ def run(ctx):
     par_every = 3 if ctx.thorough() else 5      # every k-th case uses worker processes
 
     inputs, outputs, descs = [], [], []
-    stats = {"n_jobs": {}, "chunks": [], "errors": 0}
+    stats = {"n_jobs": {}, "chunks": [], "errors": 0, "loader_calls": 0}
     work = common.tmpdir("C13_run_")
     nontrivial = set()
     nrun = 0
@@ -607,6 +668,7 @@ def run(ctx):
             "unsigned_cluster_or_channel_dtype": sum(1 for c in cases if c["dt"][1][0] == "u" or c["dt"][2][0] == "u"),
             "non_contiguous_inputs": sum(1 for c in cases if c["strided"]),
             "bin_file_as_str": sum(1 for c in cases if c["bin_str"]),
+            "loader_calls_in_sequences_with_inplace_edits": stats["loader_calls"],
             "out_of_domain_chunk_lt_trough_offset": sum(1 for c in cases if c.get("out_of_domain")),
             "out_of_domain_no_exception": stats.get("out_of_domain_no_exception", 0),
             "seed_none": sum(1 for c in cases if c["seed"] is None),
